@@ -145,3 +145,136 @@ Proof.
   cbn [vstep fst snd vset_acct v_acct]. rewrite upd_same. reflexivity.
 Qed.
 
+(** ** non-vacuity: a concrete protocol-obeying sequence with nested, partially reverted frames
+    (a contract creation, a reverted inner frame holding SSTORE / refund / log / SELFDESTRUCT,
+    a second reverted frame) *)
+Definition ex_ops : list op :=
+  [ OAddBalance 1 5000000000000; OSnapshot;
+      OCreateAccount 2; OSetNonce 2 1; OSubBalance 1 2000000000000; OAddBalance 2 2000000000000;
+      OSnapshot; OSetState 2 0 7; OAddRefund 4800; OAddLog 1; OSuicide 2; ORevert 1;
+      OSetState 2 1 9; OSetCode 2 3;
+    OSnapshot; OSetState 2 1 0; ORevert 2;
+    OGetState 2 1; OGetState 2 0; OGetRefund; OLogs; OGetBalance 2 ].
+
+Example ex_wf_nonvacuous : wf_run (k_stor empty_keeper) ex_ops (ref_begin (world_of empty_keeper)).
+Proof. vm_compute. repeat split; try discriminate; intros; reflexivity. Qed.
+
+Example ex_run : snd (run_tx empty_keeper ex_ops) =
+  [[]; [0]; []; []; []; []; [1]; []; []; []; [1]; []; []; []; [2]; []; []; [9]; [0]; [0]; []; [2000000000000]].
+Proof. vm_compute. reflexivity. Qed.
+
+(** ** the side condition "value moves in whole multiples of 1 unibi" is syntactic *)
+Definition op_whole (o : op) : Prop :=
+  match o with OAddBalance _ z | OSubBalance _ z => z mod WEI = 0 | _ => True end.
+
+Definition vwhole (v : view) : Prop := forall a x, v_acct v a = Some x -> av_bal x mod WEI = 0.
+
+Lemma WEI_pos : 0 < WEI. Proof. unfold WEI. lia. Qed.
+
+Lemma whole_add x y : x mod WEI = 0 -> y mod WEI = 0 -> (x + y) mod WEI = 0.
+Proof. intros A B. rewrite Z.add_mod, A, B by (unfold WEI; lia). reflexivity. Qed.
+Lemma whole_sub x y : x mod WEI = 0 -> y mod WEI = 0 -> (x - y) mod WEI = 0.
+Proof. intros A B. rewrite Zminus_mod, A, B. reflexivity. Qed.
+
+Lemma vwhole_al v fa fs : vwhole v -> vwhole (vset_al v fa fs).
+Proof. exact (fun H => H). Qed.
+
+Lemma vprepare_acct v sd dst pre al : v_acct (vprepare v sd dst pre al) = v_acct v.
+Proof.
+  unfold vprepare.
+  assert (Hs : forall l a v0, v_acct (fold_left (fun v k => vadd_slot v a k) l v0) = v_acct v0).
+  { induction l; intros; simpl; [reflexivity|]. rewrite IHl. reflexivity. }
+  assert (Ha : forall l v0, v_acct (fold_left vadd_addr l v0) = v_acct v0).
+  { induction l; intros; simpl; [reflexivity|]. rewrite IHl. reflexivity. }
+  assert (Hal : forall l v0, v_acct (fold_left (fun v el => fold_left (fun v k => vadd_slot v (fst el) k) (snd el) (vadd_addr v (fst el))) l v0) = v_acct v0).
+  { induction l; intros; simpl; [reflexivity|]. rewrite IHl, Hs. reflexivity. }
+  rewrite Hal, Ha. destruct dst; reflexivity.
+Qed.
+
+Lemma vstep_whole o v : op_whole o -> vwhole v -> vwhole (fst (vstep o v)).
+Proof.
+  intros Ho Hv.
+  assert (Hb : av_bal blank mod WEI = 0) by reflexivity.
+  assert (Hg : forall a, av_bal (vget_or_new v a) mod WEI = 0).
+  { intro a. unfold vget_or_new. destruct (v_acct v a) eqn:E; [apply (Hv a), E|exact Hb]. }
+  destruct o; cbn [vstep fst op_whole] in *; try exact Hv;
+    try (intros a' x; cbn [v_acct vset_acct vset_stor vset_comm vset_refund vset_logs]; unfold upd;
+         destruct (a' =? a); [intros [= <-]; simpl; auto using whole_add, whole_sub|apply Hv]).
+  - (* CreateAccount *) destruct (v_acct v a) eqn:E; [apply (Hv a), E|reflexivity].
+  - destruct (v_refund v <? g); exact Hv.
+  - destruct (v_acct v a) eqn:E; cbn [fst]; [|exact Hv].
+    intros a' x. cbn [v_acct vset_acct]. unfold upd. destruct (a' =? a); [intros [= <-]; reflexivity|apply Hv].
+  - intros a' x. rewrite vprepare_acct. apply Hv.
+Qed.
+
+Definition rwhole (r : ref) : Prop := vwhole (cur r) /\ Forall (fun p => vwhole (snd p)) (stack r).
+
+Lemma find_copy_whole id : forall stk v older,
+  Forall (fun p => vwhole (snd p)) stk -> find_copy id stk = Some (v, older) ->
+  vwhole v /\ Forall (fun p => vwhole (snd p)) older.
+Proof.
+  induction stk as [|[i w] stk IH]; intros v older H; simpl; [discriminate|].
+  inversion H; subst. destruct (i =? id); [intros [= <- <-]; auto|apply IH; assumption].
+Qed.
+
+Lemma rstep_whole o r : op_whole o -> rwhole r -> rwhole (fst (rstep o r)).
+Proof.
+  intros Ho [Hc Hs]. destruct o;
+    try (cbn [rstep]; match goal with |- rwhole (fst (let '(v, x) := vstep ?o ?c in _)) =>
+           pose proof (vstep_whole o c Ho Hc) as Hw; destruct (vstep o c) end; split; assumption).
+  - split; [exact Hc|constructor; assumption].
+  - cbn [rstep]. destruct (find_copy id (stack r)) as [[v older]|] eqn:E; [|split; assumption].
+    destruct (find_copy_whole id _ _ _ Hs E). split; assumption.
+Qed.
+
+Lemma rrun_whole : forall ops r, Forall op_whole ops -> rwhole r -> rwhole (fst (rrun ops r)).
+Proof.
+  induction ops as [|o ops IH]; intros r Ho Hr; simpl; [exact Hr|].
+  inversion Ho; subst. pose proof (rstep_whole o r H1 Hr) as H. destruct (rstep o r) as [r1 x]. cbn [fst] in H.
+  specialize (IH r1 H2 H). destruct (rrun ops r1). exact IH.
+Qed.
+
+Lemma whole_unibi_iff z : z mod WEI = 0 -> to_wei (to_native z) = z.
+Proof.
+  intro H. unfold to_wei, to_native. pose proof (Z.div_mod z WEI ltac:(unfold WEI; lia)). lia.
+Qed.
+
+Theorem whole_amounts_whole_world k ops :
+  Forall op_whole ops -> whole_unibi (fst (ref_tx (world_of k) ops)).
+Proof.
+  intro Ho. unfold ref_tx.
+  assert (Hr : rwhole (ref_begin (world_of k))).
+  { split; [|constructor]. intros a x. simpl. destruct (k_acct k a); [|discriminate].
+    intros [= <-]. simpl. unfold to_wei. apply Z.mod_mul. unfold WEI. lia. }
+  pose proof (rrun_whole ops _ Ho Hr) as [Hc _]. destruct (rrun ops (ref_begin (world_of k))) as [r xs].
+  cbn [fst] in *. intros a x. simpl. destruct (v_acct (cur r) a) as [y|] eqn:E; [|discriminate].
+  destruct (av_suic y); [discriminate|]. intros [= <-]. simpl. apply whole_unibi_iff, (Hc a), E.
+Qed.
+
+(** histories under the syntactic side condition *)
+Fixpoint hist_wf' (k : keeper) (txs : list (list op)) : Prop :=
+  match txs with
+  | [] => True
+  | t :: rest =>
+    wf_run (k_stor k) t (ref_begin (world_of k)) /\ Forall op_whole t /\ hist_wf' (fst (run_tx k t)) rest
+  end.
+
+Lemma hist_wf'_wf : forall txs k, hist_wf' k txs -> hist_wf k txs.
+Proof.
+  induction txs as [|t txs IH]; intros k H; simpl in *; [exact I|].
+  destruct H as (A & B & C). split; [exact A|]. split; [apply whole_amounts_whole_world, B|apply IH, C].
+Qed.
+
+Definition ex_tx2 : list op := [OSnapshot; OSetState 2 1 4; ORevert 0; OGetState 2 1; OGetCommittedState 2 1].
+
+Example ex_hist_nonvacuous : hist_wf' empty_keeper [ex_ops; ex_tx2].
+Proof.
+  cbn [hist_wf']. split; [apply ex_wf_nonvacuous|]. split.
+  - unfold ex_ops. repeat constructor.
+  - split; [vm_compute; repeat split; try discriminate; intros; reflexivity|]. split; [|exact I].
+    unfold ex_tx2. repeat constructor.
+Qed.
+
+Example ex_hist_run : snd (run_txs empty_keeper [ex_ops; ex_tx2]) =
+  [snd (run_tx empty_keeper ex_ops); [[0]; []; []; [9]; [9]]].
+Proof. vm_compute. reflexivity. Qed.
